@@ -24,6 +24,7 @@ fn fits(v: &Value, ty: &str) -> bool {
 
 /// all spellings applicable to the pair (a, b); one history group
 pub fn group(tr: &mut Tracer, rng: &mut StdRng, a: &Value, b: &Value, all_types: bool) {
+    tr.reserve(120);
     tr.emit(json!({"op": "reset"}));
     for f in ["val_val", "val_ref", "ref_val", "ref_ref"] {
         tr.emit(json!({"op": "div", "form": f, "a": a, "b": b}));
